@@ -799,7 +799,7 @@ func ksNewData(f *ast.File, fname, coqName, ctor string, fields []string) (strin
 
 type ksSigFn struct {
 	flavour, sigField, newData, newDataGen string
-	newArgs                                  []string
+	newArgs                                []string
 }
 
 func ksValidateSigs(f *ast.File, c ksSigFn) (string, error) {
